@@ -235,6 +235,16 @@ func (h *H) onStart(w *W, jr *JobRec, s int) {
 		}
 		// (a Bind starts an Initiated worker only, and no barrier returns nil on an Initiated worker)
 		if (c.Op == "PauseAndWait" || c.Op == "Stop" || c.Op == "WaitAndStop") && c.Done && c.Err == nil && c.Ret < s && h.barrierApplies(c) {
+			// a Resume / Restart that was still in progress when the barrier was called may take effect after it returned
+			overl := false
+			for _, o := range h.Ctls {
+				if o.W == w && (o.Op == "Resume" || o.Op == "Restart") && (!o.Done || o.Ret > c.Call) {
+					overl = true
+				}
+			}
+			if overl {
+				break
+			}
 			h.viol("C09", "C09.start-after-"+c.Op, "a worker function started after "+c.Op+" returned and before Resume/Restart")
 			break
 		}
@@ -500,12 +510,12 @@ func (h *H) sampleQuiet() {
 		if h.Shape == Gated && !q.GatesOpen && len(h.Ws) == 1 {
 			u, infl := 0, 0
 			for _, jr := range h.Jobs {
-				if jr.W != w || jr.Batch != nil && !h.batchSure(jr) {
+				if jr.W != w {
 					continue
 				}
 				if jr.inWF() {
-					infl++
-				} else if h.sureRunnable(jr) && len(jr.Starts) == 0 {
+					infl++ // (a job that is executing holds a slot, whatever is known about its acceptance)
+				} else if !(jr.Batch != nil && !h.batchSure(jr)) && h.sureRunnable(jr) && len(jr.Starts) == 0 {
 					u++
 				}
 			}
@@ -639,6 +649,10 @@ func (h *H) Judge(x *vrt.Exec) ([]vrt.Violation, uint64) {
 			switch op {
 			case "Wait", "Result", "Err", "BatchWait":
 				prop = "C05"
+				if op == "BatchWait" {
+					// (a batch whose Wait never returns never reaches NumPending 0 and never closes its stream)
+					h.viol("C08", "C08.hang", "the batch's Wait never returns")
+				}
 			case "ReadStream":
 				prop = "C08"
 			case "WaitUntilFinished", "PauseAndWait", "Stop", "WaitAndStop":
@@ -689,6 +703,9 @@ func (h *H) judgeJobs(crashed bool) {
 				if !ok {
 					h.viol("C01", "C01.identity", fmt.Sprintf("worker function saw ID %q for a job submitted as %q", id, want))
 					h.viol("C07", "C07.identity", fmt.Sprintf("worker function saw ID %q for a job submitted as %q", id, want))
+					if jr.Q != nil && jr.Q.Kind.IsAdapter() && !jr.Q.Kind.IsCustom() {
+						h.viol("C12", "C12.identity", fmt.Sprintf("a job stored through an adapter reached the worker function with ID %q, submitted as %q", id, want))
+					}
 				}
 			}
 		}
